@@ -103,9 +103,15 @@ pub fn replay_prop(prop: &str, _check: &str, i: &Value) -> Option<CheckResult> {
     Some(if prop == "C01" { r.c01 } else { r.c03 })
 }
 pub fn replay_c01(check: &str, i: &Value) -> Option<CheckResult> {
+    if check == "direct" {
+        return replay_direct("C01", i);
+    }
     replay_prop("C01", check, i)
 }
 pub fn replay_c03(check: &str, i: &Value) -> Option<CheckResult> {
+    if check == "direct" {
+        return replay_direct("C03", i);
+    }
     if check == "capture" {
         return Some(check_capture(&crate::table(), i.get("file")?.as_str()?, i.get("type")?.as_str()?, &unhex(i.get("bytes")?.as_str()?)));
     }
@@ -246,16 +252,77 @@ pub fn run_codec(prop: &'static str, tier: Tier) -> i32 {
         });
     });
     stats.merge(s);
+    // direct layer: typed values constructed from the generated values (no decode-first bridge), in its own crate
+    match direct_side(prop, &ctx, tier) {
+        Ok(mut s) => {
+            let vs = std::mem::take(&mut s.violations);
+            stats.merge(s);
+            for v in vs {
+                ctx.record(Err(v), &mut stats);
+            }
+        }
+        Err(why) => stats.notes.push(format!("direct layer skipped (the constructor crate /verif/direct did not build or run against this tree): {why}")),
+    }
     let (rule, assume): (&str, Vec<&str>) = if prop == "C01" {
         (
-            "55 shipped types x canonical values from the table-driven proptest strategies (presence bits, vec lengths, boundary-biased numbers/lengths, CP437/hex alphabets, size pump to APDU/TLV switch points). Each value is reference-encoded, decoded by the repo into a real value, then serialised and deserialised by the repo and compared with PartialEq. non-trivial = >= 2 present fields or a nested container or body length on a switch point; distinct by hash of the reference encoding",
-            vec!["canonical domain = fixed points of the reference codec (DESIGN.md 5.1)", "values reach the real types through the repo's decoder (decode-first); C03 checks on the same domain that this decoder yields exactly the intended value"],
+            "55 shipped types x canonical values from the table-driven proptest strategies (presence bits, vec lengths, boundary-biased numbers/lengths, CP437/hex alphabets, size pump to APDU/TLV switch points). Each value is reference-encoded, decoded by the repo into a real value, then serialised and deserialised by the repo and compared with PartialEq. Direct layer (classes direct:*): the same strategies, but the typed value is built by a struct literal from the generated value (constructors generated from the layout table's field names, crate /verif/direct), serialised and read back: it must come back equal, with the same Debug rendering and nothing left. non-trivial = >= 2 present fields or a nested container or body length on a switch point; distinct by hash of the reference encoding",
+            vec!["canonical domain = fixed points of the reference codec (DESIGN.md 5.1)", "in the main layer values reach the real types through the repo's decoder (decode-first); the direct layer constructs them (two types with private fields, SelectLanguage and tlv.StatusEnquiry, cannot be constructed and are covered by the main layer only)"],
         )
     } else {
         (
-            "55 shipped types x canonical values (as C01): bytes assembled by the reference codec from the independent layout table must decode (repo) to exactly the named fields with nothing left, and the repo must re-encode the value to the identical bytes; plus the 24 captured blobs read by both decoders. non-trivial as C01; distinct by hash of the reference encoding",
+            "55 shipped types x canonical values (as C01): bytes assembled by the reference codec from the independent layout table must decode (repo) to exactly the named fields with nothing left, and the repo must re-encode the value to the identical bytes; direct layer (classes direct:*): the typed value built by a struct literal must serialise to exactly the reference bytes; plus the 24 captured blobs read by both decoders. non-trivial as C01; distinct by hash of the reference encoding",
             vec!["the layout table (harness/src/layouts.tbl) is a hand transcription of the ZVT / Feig specification, validated against the captured blobs; an error shared by table and code is invisible"],
         )
     };
     ctx.finish(stats, rule, &assume, false)
+}
+
+/// Build and run the direct layer (crate /verif/direct) on behalf of `prop`; Err = it could not be built / run.
+pub fn direct_side(prop: &'static str, ctx: &Ctx, tier: Tier) -> Result<Stats, String> {
+    let root = verif_root();
+    let out = std::process::Command::new("cargo")
+        .args(["build", "--quiet", "--profile", "verif"])
+        .current_dir(root.join("direct"))
+        .env("CARGO_NET_OFFLINE", "true")
+        .env("CARGO_TARGET_DIR", root.join("target"))
+        .output()
+        .map_err(|e| e.to_string())?;
+    if !out.status.success() {
+        return Err(String::from_utf8_lossy(&out.stderr).lines().filter(|l| l.starts_with("error")).take(4).collect::<Vec<_>>().join(" | "));
+    }
+    let stats_file = root.join("target").join(format!("direct-stats-{prop}.json"));
+    let _ = std::fs::remove_file(&stats_file);
+    let status = std::process::Command::new(root.join("target").join("verif").join("zvtdirect"))
+        .arg(tier.name())
+        .env("VERIF_ROOT", &root)
+        .env("VERIF_SEED", ctx.seed.to_string())
+        .env("VERIF_DIRECT_PROP", prop)
+        .env("VERIF_DIRECT_STATS", &stats_file)
+        .status()
+        .map_err(|e| e.to_string())?;
+    if status.code() != Some(0) {
+        return Err(format!("zvtdirect exited with {:?}", status.code()));
+    }
+    let text = std::fs::read_to_string(&stats_file).map_err(|e| e.to_string())?;
+    let v: Value = serde_json::from_str(&text).map_err(|e| e.to_string())?;
+    Stats::from_value(&v).ok_or("stats file not understood".to_string())
+}
+fn replay_direct(prop: &str, i: &Value) -> Option<CheckResult> {
+    let root = verif_root();
+    let built = std::process::Command::new("cargo").args(["build", "--quiet", "--profile", "verif"]).current_dir(root.join("direct")).env("CARGO_NET_OFFLINE", "true").env("CARGO_TARGET_DIR", root.join("target")).status().ok()?;
+    if !built.success() {
+        return None;
+    }
+    let tmp = root.join("target").join(format!("direct-replay-{prop}.json"));
+    std::fs::write(&tmp, serde_json::to_string(i).ok()?).ok()?;
+    let out = std::process::Command::new(root.join("target").join("verif").join("zvtdirect")).arg("--replay-case").arg(&tmp).env("VERIF_ROOT", &root).env("VERIF_DIRECT_PROP", prop).output().ok()?;
+    let text = String::from_utf8_lossy(&out.stdout).to_string();
+    match out.status.code() {
+        Some(0) => Some(Ok(())),
+        Some(1) => {
+            let sig = text.lines().next().unwrap_or("direct replay").to_string();
+            Some(Err(Violation::new("direct", sig, text, i.clone())))
+        }
+        _ => None,
+    }
 }
